@@ -27,6 +27,11 @@ type Knobs struct {
 
 	// Operation weights
 	WScope, WProvide, WDecorate, WInvoke, WVisualize, WString int
+	// weights of deliberately rejected / hostile operations (C06, C14)
+	WBadProvide, WBadDecorate, WBadInvoke, WCycleCloser, WDupDecorate int
+	// PFocus: after a deliberately rejected registration, probability that
+	// the next operations re-use its keys
+	PFocus int
 
 	// Probabilities in percent
 	PAvail      int // param drawn from keys visible at the function's scope
@@ -62,9 +67,9 @@ type Knobs struct {
 	PreferAvailable bool // "visible" means transitively available in the predicted model
 
 	// Case-level switches
-	NoDecorators bool
-	NoGroups     bool
-	NoFaults     bool
+	NoDecorators   bool
+	NoGroups       bool
+	NoFaults       bool
 	AvoidDecoCycle bool
 }
 
@@ -85,6 +90,7 @@ func DefaultKnobs() Knobs {
 }
 
 type gen struct {
+	focus  []MKey // keys of the last deliberately rejected registration
 	t      *rapid.T
 	k      Knobs
 	m      *Model // predicted registrations
@@ -213,6 +219,16 @@ func (g *gen) drawParamLeaves(s, n int, pAvail int, allowGroups bool) []pleaf {
 	for i := 0; i < n; i++ {
 		lbl := fmt.Sprintf("p%d", i)
 		var l pleaf
+		if len(g.focus) > 0 && g.pct(g.k.PFocus, lbl+"focus") {
+			l.key = g.focus[g.pick(len(g.focus), lbl+"fk")]
+			if l.key.Group != "" {
+				l.soft = g.pct(g.k.PSoft, lbl+"soft")
+			} else {
+				l.opt = g.pct(g.k.POpt, lbl+"opt")
+			}
+			out = append(out, l)
+			continue
+		}
 		fromVisible := g.pct(pAvail, lbl+"avail")
 		wantGroup := allowGroups && !g.k.NoGroups && g.pct(g.k.PGroupParam, lbl+"grp")
 		switch {
@@ -401,6 +417,18 @@ func (g *gen) genProvide(s int) Op {
 		lbl := fmt.Sprintf("r%d", i)
 		var l rleaf
 		isGroup := !g.k.NoGroups && len(g.k.Groups) > 0 && g.pct(g.k.PGroupRes, lbl+"grp")
+		if len(g.focus) > 0 && g.pct(g.k.PFocus, lbl+"focus") {
+			l.key = g.focus[g.pick(len(g.focus), lbl+"fk")]
+			if isIface(l.key.T) {
+				l.impl = g.pickStr(Impls[l.key.T], lbl+"impl")
+			}
+			if l.key.Group == "" && usedHere[l.key] {
+				l.key = MKey{T: l.key.T, Name: "zz" + fmt.Sprint(i)}
+			}
+			usedHere[l.key] = true
+			rl = append(rl, l)
+			continue
+		}
 		if isGroup {
 			// group members may be of interface type too
 			t := g.randType(lbl + "t")
@@ -709,6 +737,33 @@ func (g *gen) genInvoke(s int) Op {
 
 func (g *gen) pickScope(lbl string) int { return g.pick(g.nscope, lbl) }
 
+// focusOn appends a (probably rejected) registration and remembers its keys
+// so that the continuation touches them again.
+func (g *gen) focusOn(op Op) {
+	g.c.Ops = append(g.c.Ops, op)
+	g.focus = nil
+	if op.F == nil {
+		return
+	}
+	kind := KCtor
+	if op.K == OpDecorate {
+		kind = KDeco
+	}
+	mf := NewMFn(op.F, op.O, kind, op.S)
+	for _, k := range mf.Keys() {
+		if k.T != "" {
+			if _, ok := pool[k.T]; ok {
+				g.focus = append(g.focus, k)
+			}
+		}
+	}
+	for _, l := range mf.Leaves {
+		if _, ok := pool[l.Key.T]; ok && l.Key.T != "" {
+			g.focus = append(g.focus, l.Key)
+		}
+	}
+}
+
 // GenCase draws a whole history.
 func GenCase(t *rapid.T, k Knobs) *Case {
 	g := &gen{t: t, k: k, m: NewModel(), c: &Case{}, nscope: 1}
@@ -719,13 +774,16 @@ func GenCase(t *rapid.T, k Knobs) *Case {
 	if k.NoDecorators {
 		wDec = 0
 	}
-	total := k.WScope + k.WProvide + wDec + k.WInvoke + k.WVisualize + k.WString
-	for len(g.c.Ops) < nops {
-		r := g.pick(total, "op")
-		switch {
-		case r < k.WScope:
+	type wop struct {
+		w int
+		f func()
+	}
+	add := func(op Op) { g.c.Ops = append(g.c.Ops, op) }
+	ops := []wop{
+		{k.WScope, func() {
 			if g.nscope >= k.MaxScopes {
-				continue
+				add(g.genProvide(g.pickScope("ps0")))
+				return
 			}
 			parent := g.pickScope("parent")
 			if g.m.Depth(parent) >= k.MaxDepth {
@@ -734,27 +792,59 @@ func GenCase(t *rapid.T, k Knobs) *Case {
 			name := fmt.Sprintf("s%d", g.nscope)
 			g.m.AddScope(parent, name)
 			g.nscope++
-			g.c.Ops = append(g.c.Ops, Op{K: OpScope, S: parent, Name: name})
-		case r < k.WScope+k.WProvide:
-			g.c.Ops = append(g.c.Ops, g.genProvide(g.pickScope("ps")))
-		case r < k.WScope+k.WProvide+wDec:
+			add(Op{K: OpScope, S: parent, Name: name})
+		}},
+		{k.WProvide, func() { add(g.genProvide(g.pickScope("ps"))) }},
+		{wDec, func() {
 			if op, ok := g.genDecorate(g.pickScope("ds")); ok {
-				g.c.Ops = append(g.c.Ops, op)
+				add(op)
 			} else {
-				g.c.Ops = append(g.c.Ops, g.genProvide(g.pickScope("ps2")))
+				add(g.genProvide(g.pickScope("ps2")))
 			}
-		case r < k.WScope+k.WProvide+wDec+k.WInvoke:
+		}},
+		{k.WInvoke, func() {
 			is := g.pickScope("is")
 			if ss, gs := g.visibleKeys(is); len(ss)+len(gs) == 0 && !g.pct(g.k.PHole/4, "emptyinvoke") {
 				// nothing to ask for yet: register something instead
-				g.c.Ops = append(g.c.Ops, g.genProvide(is))
-				continue
+				add(g.genProvide(is))
+				return
 			}
-			g.c.Ops = append(g.c.Ops, g.genInvoke(is))
-		case r < k.WScope+k.WProvide+wDec+k.WInvoke+k.WVisualize:
-			g.c.Ops = append(g.c.Ops, Op{K: OpVisualize})
-		default:
-			g.c.Ops = append(g.c.Ops, Op{K: OpString, S: g.pickScope("ss")})
+			add(g.genInvoke(is))
+		}},
+		{k.WVisualize, func() { add(Op{K: OpVisualize}) }},
+		{k.WString, func() { add(Op{K: OpString, S: g.pickScope("ss")}) }},
+		{k.WBadProvide, func() { g.focusOn(g.genBadProvide(g.pickScope("bps"))) }},
+		{k.WBadDecorate, func() { g.focusOn(g.genBadDecorate(g.pickScope("bds"))) }},
+		{k.WBadInvoke, func() { add(g.genBadInvoke(g.pickScope("bis"))) }},
+		{k.WCycleCloser, func() {
+			if op, ok := g.genCycleCloser(); ok {
+				g.focusOn(op)
+			} else {
+				add(g.genProvide(g.pickScope("ps3")))
+			}
+		}},
+		{k.WDupDecorate, func() {
+			if op, ok := g.genDupDecorate(); ok {
+				g.focusOn(op)
+			} else if op, ok := g.genDecorate(g.pickScope("ds2")); ok {
+				add(op)
+			} else {
+				add(g.genProvide(g.pickScope("ps4")))
+			}
+		}},
+	}
+	total := 0
+	for _, o := range ops {
+		total += o.w
+	}
+	for len(g.c.Ops) < nops {
+		r := g.pick(total, "op")
+		for _, o := range ops {
+			if r < o.w {
+				o.f()
+				break
+			}
+			r -= o.w
 		}
 	}
 	return g.c
